@@ -330,7 +330,7 @@ def process_config(job):
                             # the exact query gets a first budget; if normalising the identity takes longer, a numeric difference at two
                             # generic points of the path is taken as the counterexample candidate (replay decides), otherwise the exact
                             # query is run to the end
-                            kw = dict(timeout_s=job['qtimeout'], want_smt2=job.get('want_smt2', False) and not res['samples'])
+                            kw = dict(timeout_s=job['qtimeout'], want_smt2=job.get('want_smt2', False) and (not res['samples'] or res.get('xchecks', 0) < 2))
                             try:
                                 with _time_budget(45):
                                     r = smt.check_equal_many(ctx, sym_pairs, pathcond, **kw)
@@ -351,13 +351,22 @@ def process_config(job):
                                        atoms=r['atoms'])
                             if 'smt2' in r:
                                 rec['smt2_head'] = r['smt2'][:1500]
+                                if r.get('syntactic_mismatch') and r['status'] in ('sat', 'unsat') and res.get('xchecks', 0) < 2 \
+                                        and len(r['smt2']) < 400000:
+                                    # second solver on the same SMT-LIB text (a few sampled, non-trivial queries per run)
+                                    res['xchecks'] = res.get('xchecks', 0) + 1
+                                    rec['cvc5'] = smt.cross_check(r['smt2'], timeout_s=10)
                             cex_env = r.get('env')
                         if ob.note != 'notv2':
                             tv2_vals[ob.label] = _num_array(ob.lhs, full0)
                     elif ob.kind == 'holds':
                         if isinstance(ob.lhs, SymBool):
-                            r = smt.check_bool(ctx, ob.lhs, pathcond, timeout_s=job['qtimeout'])
+                            wx = bool(job.get('want_smt2')) and res.get('xchecks', 0) < 2
+                            r = smt.check_bool(ctx, ob.lhs, pathcond, timeout_s=job['qtimeout'], want_smt2=wx)
                             rec.update(status=r['status'], time_s=round(r['time_s'], 4), atoms=r['atoms'])
+                            if wx and 'smt2' in r and r['status'] in ('sat', 'unsat') and r.get('atoms') and len(r['smt2']) < 400000:
+                                res['xchecks'] = res.get('xchecks', 0) + 1
+                                rec['cvc5'] = smt.cross_check(r['smt2'], timeout_s=10)
                             cex_env = r.get('env')
                         else:
                             rec.update(status='unsat' if bool(ob.lhs) else 'sat', decided='concretely')
@@ -531,7 +540,7 @@ def main(prop, tier, seed, only=None, jobs=None):
     rng.shuffle(cfgs)
     qtimeout = getattr(mod, 'QTIMEOUT', {}).get(tier, 60 if tier == 'quick' else 300)
     work = [{'prop': prop, 'cfg': c, 'tier': tier, 'seed': seed, 'qtimeout': qtimeout,
-             'max_paths': c.get('max_paths', getattr(mod, 'MAX_PATHS', 32)), 'want_smt2': i < 3} for i, c in enumerate(cfgs)]
+             'max_paths': c.get('max_paths', getattr(mod, 'MAX_PATHS', 32)), 'want_smt2': i < 6} for i, c in enumerate(cfgs)]
     ntw = getattr(mod, 'TWINS', {}).get(tier, 3 if tier == 'quick' else 8)
     twin_work = []
     for w in work[:ntw]:
@@ -675,6 +684,21 @@ def finish(prop, mod, tier, seed, results, t0):
             inconclusive_lines.append('INCONCLUSIVE property=%s cfg=%s reachability twin produced no obligations: %s'
                                       % (prop, r['cfg'].get('name'), '; '.join(r['notes'])[:300]))
     TWIN_STATS['total'], TWIN_STATS['ok'] = twins_total, twins_ok
+    # ---- second solver on sampled queries ----
+    XCHECK.update({'solver': 'cvc5 (binary on PATH)', 'queries': 0, 'agree': 0, 'unknown': 0, 'disagree': 0})
+    for r in results:
+        for o in r['obligations']:
+            if 'cvc5' in o:
+                XCHECK['queries'] += 1
+                if o['cvc5'] == 'unknown':
+                    XCHECK['unknown'] += 1
+                elif o['cvc5'] == o['status']:
+                    XCHECK['agree'] += 1
+                else:
+                    XCHECK['disagree'] += 1
+                    r['inconclusive'] += 1
+                    inconclusive_lines.append('INCONCLUSIVE property=%s cfg=%s label=%s z3 answered %s but cvc5 answered %s on the same SMT-LIB text'
+                                              % (prop, r['cfg'].get('name'), o['label'], o['status'], o['cvc5']))
     # ---- report ----
     for line in inconclusive_lines[:40]:
         print(line)
@@ -711,6 +735,7 @@ def finish(prop, mod, tier, seed, results, t0):
 
 
 TWIN_STATS = {'total': 0, 'ok': 0}
+XCHECK = {}
 
 
 def write_evidence(prop, mod, tier, seed, results, violations, known_hits, tv2_points, tv2_bad, wall):
@@ -764,6 +789,7 @@ def write_evidence(prop, mod, tier, seed, results, violations, known_hits, tv2_p
             'solver_versions': {'z3': z3.get_version_string()},
             'stubs': getattr(mod, 'STUBS', []),
             'reachability_twins': dict(TWIN_STATS),
+            'second_solver_on_sampled_queries': dict(XCHECK),
             'tv2_points': tv2_points,
             'tv2_mismatches': tv2_bad,
             'known_findings_hit': sorted({(k.get('id') or k.get('what')) for k, _c, _l in known_hits}),
